@@ -18,6 +18,22 @@ ENGINES = [
 ]
 NA_REASONS = {}
 CHECKS = {
+    "C03": dict(
+        engine="E4 enum + E6 sandbox", category="exploration",
+        technique="bounded-exhaustive enumeration of (base,target) pairs and of all byte strings as deltas, every encoder x decoder pairing (Python, Rust, C git), observed in rlimit-ed child processes",
+        text=("All (base,target) over {a,b,NUL}^<=4 (thorough <=6) plus boundary families through every encoder/decoder pairing; all strings of length <=5 (thorough <=6) over a 12-symbol "
+              "opcode-covering alphabet x 3 bases plus structured mutations (varints of 1..11 bytes, declared sizes to 2^70, all 128 copy opcodes) as hostile deltas: result is the declared-size "
+              "output made of base slices and inserts, or ApplyDeltaError; never a signal, panic, timeout or memory growth out of proportion."),
+        note="Trusted: engines/refmodels/delta.py (git's patch-delta semantics), the sandbox attribution protocol (index published before each call), git 2.39.5. Rust crates rebuilt from the working tree.",
+    ),
+    "C06": dict(
+        engine="E3 statespace + E1 sysched", category="model_checking",
+        technique="exhaustive enumeration of server states x command lists x capabilities through the real receive-pack handler against a 30-line reference semantics; syscall-level interleavings of two racing pushers",
+        text=("All 9 server ref states x all lists of <=2 (thorough <=3) commands over 3 refs x old {0,c1,c2} x new {0,c1,c2,missing,in-pack} x atomic on/off through ReceivePackHandler.handle() fed real "
+              "pkt-lines (disk, memory, packed refs, side-band, no delete-refs) and through LocalGitClient.send_pack; reported ok <=> applied, stale old values untouched and rejected, every ref target in the store, "
+              "atomic all-or-none. Two racing handlers explored with <=2-3 preemptions: reports and final refs must be explained by an order of the pushes (atomic) / of the commands (plain)."),
+        note="Trusted: the reference semantics in props/C06.py; under contention a rejection may be spurious (ng with no effect) but ok must be truthful.",
+    ),
     "C07": dict(
         engine="E1 sysched + E2 crashfs", category="model_checking",
         technique="stateless exploration of all syscall-level interleavings up to a preemption bound on the real GitFile code; exhaustive fault-site enumeration",
@@ -51,6 +67,13 @@ CHECKS = {
               "to find_merge_base / find_octopus_base / can_fast_forward / independent, walker option matrix (order, reverse, max_entries, since/until, excludes); answers compared with the "
               "graph-theoretic ones and with git merge-base / rev-list on the identical objects, with and without a commit-graph."),
         note="Trusted: engines/refmodels/dag.py (never disagreed with git on 651k queries), git 2.39.5. Walker exclusion/cut-offs are only required exact under non-decreasing clocks, as the statement says.",
+    ),
+    "C15": dict(
+        engine="E4 enum + E6 sandbox", category="exploration",
+        technique="bounded-exhaustive differential enumeration of every Rust/Python twin function in sandboxed workers (extension rebuilt from the working tree vs. fallbacks with the extension import blocked)",
+        text=("parse_tree over all token strings of <=3 entries (mode/name/id token alphabets, both id lengths, strict on/off) and all raw strings <=4; sorted_tree_items over all dicts <=3; apply_delta/create_delta over the C03 spaces; "
+              "bisect_find_sha over all tables <=4 x probes x (start,end) incl. 32-bit limits; _merge_entries/_is_tree/_count_blocks; plus repository-level scenarios. Same value or failure in both; a panic, abort, hang or blow-up is never 'failure'."),
+        note="Trusted: the sandbox engine; exception class families may differ between twins (allowed by the statement).",
     ),
     "C16": dict(
         engine="E3 statespace + E4 enum", category="model_checking",
